@@ -162,10 +162,14 @@ type iterSite struct {
 
 // iterCallSite recognises a static call of an `iterates` function.
 func (g *FnGen) iterCallSite(com *ssa.CallCommon) (*FuncContract, *callTarget, bool) {
-	if com.IsInvoke() || com.StaticCallee() == nil {
-		if !com.IsInvoke() {
-			return nil, nil, false
+	if com.IsInvoke() {
+		if fc, fn, _, ok := g.resolveBound(com); ok && fc.Iterates != nil {
+			return fc, &callTarget{fc: fc, key: g.c.fnKey(fn), sig: fn.Signature, fn: fn}, true
 		}
+		return nil, nil, false
+	}
+	if com.StaticCallee() == nil {
+		return nil, nil, false
 	}
 	fc, ct := g.c.calleeContract(g, com)
 	if fc == nil || fc.Iterates == nil {
@@ -205,17 +209,17 @@ func (g *FnGen) numberIterCalls() {
 	}
 }
 
-func (g *FnGen) execIterCall(s *State, ins ssa.Instruction, com *ssa.CallCommon, res ssa.Value, fc *FuncContract, ct *callTarget) {
+// execIterCall: args are the evaluated arguments (receiver first when the callee is a method); raw are the
+// SSA operands of the trailing len(raw) arguments (where the closure literal is looked for).
+func (g *FnGen) execIterCall(s *State, ins ssa.Instruction, res ssa.Value, fc *FuncContract, ct *callTarget, args []TVal, raw []ssa.Value) {
 	it := fc.Iterates
 	k := g.iterOrd[ins]
-	var args []TVal
-	if com.IsInvoke() {
-		args = append(args, TVal{term: g.term(s, com.Value), ty: Ty{sort: "Iface", gt: com.Value.Type()}})
-		g.panicIf(s, eq(args[0].term, "niliface"), "nil-iface-call")
-	}
 	var mc *ssa.MakeClosure
-	off := len(ct.names) - len(com.Args)
-	for i, a := range com.Args {
+	off := len(ct.names) - len(raw)
+	if off < 0 || len(args) != len(ct.names) {
+		panic(genErr("%s: iterator %s: %d arguments for %d parameters", g.fn.Name(), shortKey(ct.key), len(args), len(ct.names)))
+	}
+	for i, a := range raw {
 		if ct.names[off+i] == it.Fn {
 			m, ok := a.(*ssa.MakeClosure)
 			if !ok {
@@ -223,7 +227,6 @@ func (g *FnGen) execIterCall(s *State, ins ssa.Instruction, com *ssa.CallCommon,
 			}
 			mc = m
 		}
-		args = append(args, TVal{term: g.term(s, a), ty: Ty{sort: g.c.reg.sortOf(a.Type()), gt: a.Type()}})
 	}
 	if mc == nil {
 		panic(genErr("%s: iterator %s: parameter %s not found", g.fn.Name(), shortKey(ct.key), it.Fn))
